@@ -447,7 +447,6 @@ func walkCtxNonNil(g *PCFG, ctxF *types.Var, fn *ssa.Function, barrier func(ssa.
 	return rec(fn.Blocks[0])
 }
 
-
 // ruleThreadCtx: kill() cancels a finished thread's own context (to release it). NewThread must therefore
 // not hang a new thread's context under the creating coroutine's: the parent handed to context.WithCancel
 // comes from G.MainThread whenever that has a context (F48).
